@@ -40,6 +40,7 @@ class C02(E1):
     TECHNIQUE = ('deterministic simulation: seeded executor histories incl. overrun next() calls; phase-grammar and coverage monitors on the reference machine; bounded-liveness step cap')
     EXPECTED_PROBES = ('second_pass_runs',)
     OVERRUN = 3
+    BAD_FIN = 0.1
     RULE = ("as C01 plus next() three more times after the executor's last "
             "pass; phase grammar, contiguous tiling of [0,N) by forward-phase "
             "Forwards and by each pass's Reverses, EndReverse exactly at "
@@ -158,6 +159,7 @@ class C08(E1):
     TECHNIQUE = ('deterministic simulation with observer injection: counters read after every event and at seeded instants, compared with the reference machine')
     EXPECTED_PROBES = ('second_pass_runs', 'obs_before_first_next')
     OBS_RATE = 0.25
+    BAD_FIN = 0.1
     OBS_KINDS = ("n", "r", "max_n") * 3 + ("is_exhausted", "is_running",
                                           "uses:RAM", "uses:DISK")
     RULE = ("as C01 plus reads of n, r, max_n (and the other observers) "
